@@ -780,6 +780,7 @@ package decimal128
 //@ props C04 C19 C20
 
 //@ func Decimal.Equal
+//@ uses timeout=150
 //@ returns (b)
 //@ ensures isnan(d) || isnan(o) ==> !b
 //@ ensures !isnan(d) && !isnan(o) && (isinf(d) || isinf(o)) ==> (b <==> (isinf(d) && isinf(o) && sign(d) == sign(o)))
